@@ -2,7 +2,7 @@ CONSTANTS
   EnsSet = {"A", "B"}
   PVals = {1, 2}
   MaxObj = 3
-  MaxDepth = 7
+  MaxDepth = 6
 SPECIFICATION Spec
 VIEW View
 CONSTRAINT Bounded
